@@ -16,7 +16,7 @@ import DaskModel.Generated.ChunkTolerance
 * `reshape`: `expand_tuple_spec`, `contract_tuple_spec`, the two 2-d plans `reshape_merge_den` / `reshape_merge_ones_den`, and the
   general n-d statement `reshape_blocks_den` / `reshape_rechunk_groupsOK` / `reshape_den`;
 * blockwise / key-map plans on 2-d block tables: `transpose_den`, `flip_den`, `rot90_den`, `tril_den`, `triu_den`, `stack_den`,
-  `broadcast_to_den`, `concat2d_den`, `block_den`, `tile2d_den`; constant pad `pad_const_den`.
+  `broadcast_to_den`, `squeeze_expand_den` (+ `expand_dims_plan`), `concat2d_den`, `block_den`, `tile2d_den`; constant pad `pad_const_den`.
 Not proved (validated against NumPy by harness/props/c24.py): n-d versions of the 2-d / 1-d plans (product structure),
 squeeze (integer indexing: slicing group), block / tile with nested lists (nested `concatenate`), statistics / edge / constant /
 linear_ramp pads, `repeat`'s slab cutting, `_rechunk_other_dimensions` of `shuffle`, `x.rechunk(result_inchunks)` (C23).
@@ -700,5 +700,31 @@ theorem pad_const_den {α} (chunks : List Nat) (blocks : List (List α)) (l r : 
   ⟨padConstBlocks_flatten chunks blocks l r v, padChunks_sum true chunks l, padChunks_sum true chunks r⟩
 
 example : padConstBlocks [2, 1] [[1, 2], [3]] 3 1 0 = [[0, 0], [0], [1, 2], [3], [0]] := by decide
+
+
+/-- **squeeze_den / expand_dims_den** (one axis of length one in front): dropping / inserting the axis keeps the other axis'
+    chunks and blocks; and `expand_dims` really is this plan: `reshape_rechunk` answers `(n,) -> (1, n)` with the input
+    chunks unchanged (no rechunk) and `((1,), chunks)` for every chunk tuple -/
+theorem squeeze_expand_den {α} (cc : List Nat) (A : Nat → Nat → α) (B : Nat → α) (q : Nat) (hq : q < sum cc) :
+    (squeezeRow (Grid.ofFn [1] cc A)).read q = some (A 0 q) ∧ (expandRow (Vec.ofFn cc B)).read 0 q = some (B q) := by
+  obtain ⟨j, s, hj⟩ := blockOf_some hq
+  obtain ⟨_, _, _, hs⟩ := blockOf_spec hj
+  constructor
+  · simp [squeezeRow, Vec.read, Grid.ofFn, hj, hs, blockStart_zero]
+  · simp [expandRow, Grid.read, Vec.ofFn, hj, hs, blockOf]
+
+theorem expand_dims_plan (n : Nat) (cs : List Nat) :
+    reshapeRechunk [n] [1, n] [cs] = .ok ([some cs], [some [1], some cs], [(0, 1), (1, 1)]) := by
+  simp [reshapeRechunk, rrLoop, rrStep, dimAt, initState]
+
+/-- … and the same for a new last axis (for `n = 1` the walk pairs the two length-one axes the other way round:
+    same chunks, groups `[(0, 1), (1, 1)]`) -/
+theorem expand_dims_last_plan (n : Nat) (cs : List Nat) (hn : n ≠ 1) :
+    reshapeRechunk [n] [n, 1] [cs] = .ok ([some cs], [some cs, some [1]], [(1, 1), (0, 1)]) := by
+  simp [reshapeRechunk, rrLoop, rrStep, dimAt, initState, hn]
+
+example : reshapeRechunk [5] [5, 1] [[2, 3]] = .ok ([some [2, 3]], [some [2, 3], some [1]], [(1, 1), (0, 1)]) :=
+  expand_dims_last_plan 5 [2, 3] (by decide)
+example : reshapeRechunk [1] [1, 1] [[1]] = .ok ([some [1]], [some [1], some [1]], [(0, 1), (1, 1)]) := by decide
 
 end Dask.C24
